@@ -103,7 +103,7 @@ func bombInput(shape, depth int, closed bool, lead int) []byte {
 	return sb.Bytes()
 }
 
-// bombChild: args = shape depth closed lead limitmode entry
+// bombChild: args = shape depth closed lead limitmode entry (0 Detect, 1 DetectReader, 2 Detect after a history of JSON detections)
 // limitmode: 0 => limit 0; 1 => 2^32-1; 2 => len; 3 => len+1
 func bombChild(c *core.Ctx, args []string) int {
 	debug.SetMaxStack(16 << 20)
@@ -123,7 +123,14 @@ func bombChild(c *core.Ctx, args []string) int {
 	}
 	mimetype.SetLimit(limit)
 	var m *mimetype.MIME
-	if iv[5] == 0 {
+	if iv[5] == 2 {
+		// entry 2: the process has a history of ordinary detections (they leave
+		// their parser state in the pool) before the bomb arrives
+		for _, d := range []string{`{"a":1}`, `{"type":"Feature","geometry":null}`, `[1,[2,[3]]]`, "{\"a\":1}\n{\"b\":2}\n", `{"log":{"version":"1.2"}}`, `{"a":`} {
+			mimetype.Detect([]byte(d))
+		}
+	}
+	if iv[5] == 0 || iv[5] == 2 {
 		m = mimetype.Detect(in)
 	} else {
 		var err error
@@ -218,7 +225,10 @@ func c16Run(c *core.Ctx) {
 			for closed := 0; closed <= 1; closed++ {
 				for lead := 0; lead <= 4; lead++ {
 					for lm := 0; lm < 4; lm++ {
-						for entry := 0; entry <= 1; entry++ {
+						for entry := 0; entry <= 2; entry++ {
+							if entry == 2 && (lm != 0 || lead != 0 || d < 4097) {
+								continue // the history variant: limit 0, plain towers beyond the cap
+							}
 							if d >= 1000000 && !c.Thorough() {
 								// quick: the largest bombs only in the modes the statement names
 								if lm > 1 || lead == 1 || (entry == 1 && lm != 0) || (d > 1000000 && (si == 3 || si == 4 || (si >= 7 && !c16Shapes[si].wide))) || (lead >= 2 && (lm != 0 || entry == 1)) {
